@@ -82,6 +82,15 @@ CLAIMED['C18'] = dict(
     technique="TLA+ design model checked by TLC + TLC trace validation of real fits",
     design_ref="DESIGN.md §5.4, §6 C18")
 
+CLAIMED['C12'] = dict(
+    text="Design: TLC model-checks specs/Multiclass.tla (classes ordered as strings by an explicit lexicographic comparison of character codes, first class skipped, one per-class carve with a "
+         "nondeterministic kept set, columns f_c created) for 5 label sets incl. 1/2/10 and 9/10/11 against Inv_C12 (columns = expected one-vs-rest set). Binding (code->spec): each case fits "
+         "one real MulticlassCarver and k independent BinaryCarvers with the same constructor parameters on the class indicators; TLC (MulticlassTrace.tla) derives the expected columns from "
+         "the class labels and compares the column set and every output column row by row.",
+    note="Trusted: TLC, drivers/multiclass.py (label interning shared by both sides, reference carver construction). The per-class carving itself is covered by C01/C02.",
+    technique="TLA+ composition model checked by TLC + TLC trace validation against independent one-vs-rest reference fits",
+    design_ref="DESIGN.md §5.6, §6 C12")
+
 NOT_YET = "check not built yet in this round (planned, see DESIGN.md §9); no claim is made"
 
 checks, na = [], []
